@@ -162,7 +162,6 @@ Section Multi.
     destruct (has_controls controls); [|reflexivity].
     destruct (is_top true targets cs); destruct (is_bot true targets cs);
       rewrite ?emit_w_skip; try reflexivity; try (apply qbridge_skip; exact H).
-    rewrite emit_w_skip; [reflexivity | apply qbridge_skip; exact H].
   Qed.
 
   Lemma multi_above w x :
@@ -179,7 +178,8 @@ Section Multi.
     assert (M2 : mem w (range (lmin targets) (lmax cs + 1)) = true).
     { rewrite mem_range. apply andb_true_iff. split; [apply Nat.leb_le | apply Nat.ltb_lt]; lia. }
     rewrite (emit_w_in _ _ _ _ M2).
-    rewrite hd_range by lia. rewrite last_range by lia.
+    rewrite (hd_range (lmin targets) (lmax cs + 1)) by lia.
+    rewrite (last_range (lmin targets) (lmax cs + 1)) by lia.
     replace (lmax cs + 1 - 1) with (lmax cs) by lia.
     destruct (is_bot true targets cs); [|reflexivity].
     apply emit_w_out. rewrite mem_range. apply andb_false_iff. right. apply Nat.ltb_ge. lia.
@@ -206,7 +206,8 @@ Section Multi.
     { destruct (is_top true targets cs); [|reflexivity].
       apply emit_w_out. rewrite mem_range. apply andb_false_iff. left. apply Nat.leb_gt. lia. }
     rewrite X3. rewrite (emit_w_in _ _ _ _ M2).
-    rewrite hd_range by lia. rewrite last_range by lia.
+    rewrite (hd_range (lmin cs) (lmax targets + 1)) by lia.
+    rewrite (last_range (lmin cs) (lmax targets + 1)) by lia.
     replace (lmax targets + 1 - 1) with (lmax targets) by lia. reflexivity.
   Qed.
 End Multi.
@@ -254,9 +255,9 @@ Proof.
   destruct ((w =? lmin targets) && mem w targets); [apply seg_ok_app3; lia|].
   destruct ((w =? lmax targets) && mem w targets); [apply seg_ok_app3; lia|].
   destruct (true && has_controls controls && mem w (ctl_list controls)).
-  - apply seg_ok_app3; try lia; rewrite set_at_length; try lia.
-    + rewrite H2. apply Nat.div_lt; lia.
-    + rewrite H2. apply Nat.div_lt; lia.
+  - assert (L : length (set_at (length (p_mid p) / 2) cND (p_mid p)) = width).
+    { rewrite set_at_length; [lia|]. rewrite H2. apply Nat.div_lt; lia. }
+    apply seg_ok_app3; lia.
   - apply seg_ok_app3; lia.
 Qed.
 
